@@ -40,6 +40,12 @@ Definition tracked (ps : list portion) : list N := heads ps ++ stack ps.
 Definition to_disk (ps : list portion) : list (N * list N) := map (fun p => (fst p, rev (snd p))) ps.
 Definition of_disk (d : list (N * list N)) : list portion := map (fun p => (fst p, rev (snd p))) d.
 
+(* linear-time variants for the executable checks (Coq's [rev] is quadratic); equal to the plain
+   ones (FreeList_proofs: frev_rev, to_disk_f_eq, of_disk_f_eq) *)
+Definition frev {A} (l : list A) : list A := rev_append l [].
+Definition to_disk_f (ps : list portion) : list (N * list N) := map (fun p => (fst p, frev (snd p))) ps.
+Definition of_disk_f (d : list (N * list N)) : list portion := map (fun p => (fst p, frev (snd p))) d.
+
 Definition is_nil {A} (l : list A) : bool := match l with [] => true | _ => false end.
 
 (* usize subtraction *)
@@ -56,7 +62,7 @@ Section Model.
 
   Variable cap : nat.
 
-  (* len_and_fragmented (free_list.rs:380) *)
+  (* len_and_fragmented (free_list.rs:393) *)
   Definition len_frag (ps : list portion) : nat * bool :=
     match ps with
     | [] => (0, false)
@@ -74,6 +80,10 @@ Section Model.
   Definition fl_read (d : list (N * list N)) : flist :=
     let ps := of_disk d in
     mkFl ps false (fst (len_frag ps)) (snd (len_frag ps)) [].
+  Definition fl_read_f (d : list (N * list N)) : flist :=
+    let ps := of_disk_f d in
+    let lf := len_frag ps in
+    mkFl ps false (fst lf) (snd lf) [].
 
   (* FreeList::pop (free_list.rs:90) on (portions, released_portions) *)
   Definition pop_ps (ps : list portion) (rel : list N)
@@ -107,7 +117,7 @@ Section Model.
         end
     end.
 
-  (* CleanFreeList::get_nth_pop (free_list.rs:436) *)
+  (* CleanFreeList::get_nth_pop (free_list.rs:449) *)
   Definition obind {A B} (o : option A) (f : A -> option B) : option B :=
     match o with Some a => f a | None => None end.
 
@@ -182,7 +192,7 @@ Section Model.
         end
     end.
 
-  (* the while loop, lines 263-310 *)
+  (* the while loop, lines 263-310; what the loop leaves decides head_untouched (line 315) *)
   Fixpoint pre_loop (fuel : nat) (st : pre) : option pre :=
     if p_i st <? length (p_push st) then
       match fuel with
@@ -222,23 +232,29 @@ Section Model.
     obind (pre_first ps rel push bump) (fun st => pre_loop (pre_fuel (p_push st)) st).
 
   (* ------------------------------------------------------------------------------------------ *)
-  (* FreeList::push_and_encode (free_list.rs:315) *)
+  (* FreeList::push_and_encode (free_list.rs:320) *)
 
   Definition wpage := (N * N * list N)%type.       (* page number, prev, items in DISK order *)
 
-  (* encode_head (free_list.rs:362) *)
+  (* encode_head (free_list.rs:375) *)
   Definition encode_head (ps : list portion) : list wpage :=
     match ps with
     | [] => []
     | (h, its) :: r => [(h, match r with [] => 0%N | (q, _) :: _ => q end, rev its)]
     end.
 
-  Fixpoint push_enc (ps : list portion) (push new : list N) (enc : list wpage)
+  (* head_untouched (free_list.rs:315): the loop ended on a full portion that was never prepared
+     for a rewrite; its page belongs to the previous state and is not written *)
+  Definition head_untouched (st : pre) : bool := p_nfp st && negb (is_nil (p_ps st)).
+
+  (* [clean] is head_clean: the head portion is identical to its page on disk; both encode_head
+     calls are skipped while it holds, every push clears it *)
+  Fixpoint push_enc (ps : list portion) (push new : list N) (clean : bool) (enc : list wpage)
     : option (list portion * list wpage) :=
     match push with
     | [] =>
         match new with
-        | [] => Some (ps, enc ++ encode_head ps)
+        | [] => Some (ps, if clean then enc else enc ++ encode_head ps)
         | _ :: _ => None                                           (* assert!(new_pages.next().is_none()) *)
         end
     | pn :: rest =>
@@ -248,12 +264,13 @@ Section Model.
         if head_full || frag then
           match new with
           | [] => None                                             (* new_pages.next().unwrap() *)
-          | np :: new' => push_enc ((np, [pn]) :: ps) rest new' (enc ++ encode_head ps)
+          | np :: new' =>
+              push_enc ((np, [pn]) :: ps) rest new' false (if clean then enc else enc ++ encode_head ps)
           end
         else
           match ps with
           | (h, its) :: r =>
-              if length its <? cap then push_enc ((h, pn :: its) :: r) rest new enc
+              if length its <? cap then push_enc ((h, pn :: its) :: r) rest new false enc
               else None                                            (* push: assert!(len < MAX) *)
           | [] => None
           end
@@ -266,7 +283,7 @@ Section Model.
     else
       let push0 := freed ++ rev (fl_released s) in
       obind (preallocate (fl_portions s) [] push0 bump) (fun st =>
-      obind (push_enc (p_ps st) (p_push st) (p_new st) []) (fun r =>
+      obind (push_enc (p_ps st) (p_push st) (p_new st) (head_untouched st) []) (fun r =>
       let ps' := fst r in
       Some (mkFl ps' false (fst (len_frag ps')) (snd (len_frag ps')) (p_rel st), p_bump st, snd r))).
 
@@ -389,7 +406,7 @@ Definition n_allocs (ops : list op) : nat :=
   length (filter (fun o => match o with OAlloc => true | ORelease _ => false end) ops).
 
 (* ---------------------------------------------------------------------------------------------- *)
-(* encoder: encode_free_list_page (free_list.rs:411).  The page buffer comes from the page pool
+(* encoder: encode_free_list_page (free_list.rs:424).  The page buffer comes from the page pool
    with UNDEFINED content (io/page_pool.rs: "The contents of the page are undefined"), so only
    the first 6 + 4 * n bytes of a portion page are determined. *)
 
@@ -430,7 +447,7 @@ Definition page_matches (rd : N -> option (list N)) (w : wpage) : bool :=
 
 Inductive tcode :=
 | TShapeOld | TShapeNew | TModelPanic | TPortions | TBump | TAllocSet | TFreedSet | TFreedDup
-| TWritten | TReencode | TAllocPanic.
+| TWritten | TReencode | TAllocPanic | TInPlace.
 
 Definition tverdict := option (tcode * N * N).
 
@@ -462,6 +479,13 @@ Fixpoint alloc_all (cap : nat) (s : flist) (bump : N) (idx n : nat) : option (li
       end
   end.
 
+(* the same list, computed without the index arithmetic when the list is clean
+   (FreeList_proofs.alloc_pages_spec: equal to alloc_all) *)
+Definition alloc_pages (cap : nat) (s : flist) (bump : N) (n : nat) : option (list N) :=
+  if clean_b cap s
+  then Some (firstn n (stack (fl_portions s)) ++ seqN bump (n - length (stack (fl_portions s))))
+  else alloc_all cap s bump 0 n.
+
 Record transition := mkTr {
   t_allocs : nat;                                    (* allocations of the sync (inferred) *)
   t_freed : list N;                                  (* the vector handed to finish (inferred, in order) *)
@@ -477,17 +501,17 @@ Record transition := mkTr {
    handed back through [freed]. *)
 Definition try_transition (cap : nat) (d0 : list (N * list N)) (bump0 : N) (live0 : list N)
            (d1 : list (N * list N)) (bump1 : N) (live1 : list N) (m : nat) : transition :=
-  let s0 := fl_read cap d0 in
-  let s1 := fl_read cap d1 in
+  let s0 := fl_read_f cap d0 in
+  let s1 := fl_read_f cap d1 in
   let l0 := set_of live0 in
   let l1 := set_of live1 in
   let released := diff live0 l1 in
   let allocated := diff live1 l0 in
   let old_heads := set_of (heads (fl_portions s0)) in
-  let pushed := skipn m (rev (stack (fl_portions s1))) in
+  let pushed := skipn m (frev (stack (fl_portions s1))) in
   let freed := diff pushed old_heads in
   let n := length allocated + length freed - length released in
-  match alloc_all cap s0 bump0 0 n with
+  match alloc_pages cap s0 bump0 n with
   | None => mkTr n freed [] [] (Some (TAllocPanic, N.of_nat n, 0%N))
   | Some got =>
       match finish cap s0 bump0 n freed with
@@ -496,7 +520,7 @@ Definition try_transition (cap : nat) (d0 : list (N * list N)) (bump0 : N) (live
           let gs := set_of got in
           let fs := set_of freed in
           let v :=
-            if negb (portions_eqb (to_disk (fl_portions s')) d1)
+            if negb (portions_eqb (to_disk_f (fl_portions s')) d1)
             then Some (TPortions, N.of_nat (length (fl_portions s')), N.of_nat (length d1))
             else if negb (bump' =? bump1)%N then Some (TBump, bump', bump1)
             else match subset allocated gs with Some x => Some (TAllocSet, x, 0%N) | None =>
@@ -511,8 +535,8 @@ Definition try_transition (cap : nat) (d0 : list (N * list N)) (bump0 : N) (live
 
 Definition fl_transition (cap : nat) (d0 : list (N * list N)) (bump0 : N) (live0 : list N)
            (d1 : list (N * list N)) (bump1 : N) (live1 : list N) : transition :=
-  let b0 := rev (stack (of_disk d0)) in
-  let b1 := rev (stack (of_disk d1)) in
+  let b0 := frev (stack (of_disk_f d0)) in
+  let b1 := frev (stack (of_disk_f d1)) in
   let m := lcp b0 b1 in
   let t := try_transition cap d0 bump0 live0 d1 bump1 live1 m in
   match t_verdict t with
@@ -566,8 +590,17 @@ Definition written_v (rd : N -> option (list N)) (ws : list wpage) : tverdict :=
   | None => None
   end.
 
+(* no page the commit writes is a portion page of the old list (FreeList_proofs.sync_cow: never,
+   for the mirrored code; an in-place rewrite would violate C17) *)
+Definition inplace_v (d0 : list (N * list N)) (ws : list wpage) : tverdict :=
+  let old_heads := set_of (map fst d0) in
+  match find (fun w => nmem (fst (fst w)) old_heads) ws with
+  | Some w => Some (TInPlace, fst (fst w), snd (fst w))
+  | None => None
+  end.
+
 Definition shape_v (cap : nat) (d : list (N * list N)) (c : tcode) : tverdict :=
-  if shape_b cap (of_disk d) then None else Some (c, disk_head d, N.of_nat (length d)).
+  if shape_b cap (of_disk_f d) then None else Some (c, disk_head d, N.of_nat (length d)).
 
 (* live page numbers of a decoded image *)
 Definition ln_live (img : image) : list N := map l_pn (i_leaves img) ++ overflow_pages img.
@@ -626,6 +659,14 @@ Section Examples.
   Example ex_rewrite_head_after_pop_only :
     option_map (fun r => snd r) (commit CAP (mkFl [(1, [2])]%N true 1 false []) [] 10000%N)
     = Some [(2, 0, [1])]%N.
+  Proof. vm_compute. reflexivity. Qed.
+
+  (* the repaired case (page size 3): the head's only item is used up, the full portion 21 below
+     becomes the head untouched: it is NOT re-encoded, the only page written is the new head 7 *)
+  Example ex_untouched_head_not_rewritten :
+    option_map (fun r => (to_disk (fl_portions (fst (fst r))), snd r))
+      (commit 3 (fl_read 3 [(20, [7]); (21, [6; 5; 4])]%N) [30%N] 100%N)
+    = Some ([(7, [30; 20]); (21, [6; 5; 4])]%N, [(7, 21, [30; 20])]%N).
   Proof. vm_compute. reflexivity. Qed.
 
   (* clean_nth_pop / clean_nth_pop_fragmented: get_nth_pop i = the i-th pop *)
